@@ -90,7 +90,7 @@ func TestVerif_C19(t *testing.T) {
 				prefix = append(prefix, vfOp{Op: "attr", Path: "/d", Name: fmt.Sprintf("fill%02d", i), Value: []string{"i64", "s1", "f32"}[i%3]})
 			}
 			d := depth
-			if c.name != "default+toggles" && c.name != "rebalancing-off" {
+			if (c.name != "default+toggles" && c.name != "rebalancing-off") || (k != 9 && !r.Thorough()) {
 				d = depth - 1
 			}
 			en := func(hist []vfOp) []vfOp {
